@@ -128,3 +128,34 @@ func bitSubsets(n, maxK int) [][]int {
 	}
 	return out
 }
+
+func latin1Bytes(s string) []byte {
+	out := make([]byte, 0, len(s))
+	for _, r := range s {
+		if r > 0xFF {
+			out = append(out, '?')
+		} else {
+			out = append(out, byte(r))
+		}
+	}
+	return out
+}
+
+func isLatin1(s string) bool {
+	for _, r := range s {
+		if r > 0xFF || r == 0xFFFD {
+			return false
+		}
+	}
+	return true
+}
+
+func latin1String(raw string) string {
+	rs := make([]rune, len(raw))
+	for i := 0; i < len(raw); i++ {
+		rs[i] = rune(raw[i])
+	}
+	return string(rs)
+}
+
+func latin1Raw(s string) string { return string(latin1Bytes(s)) }
